@@ -3,7 +3,7 @@ import z3
 from . import fl
 from .fl import SFloat
 from .vals import (SArr, SList, SObj, SStr, Unsupported, fresh_int, fresh_bool, fresh_float, fresh_bv,
-                   fresh_array_term, fresh_name, dtype_sort, parse_type, I)
+                   fresh_array_term, fresh_name, dtype_sort, parse_type, I, sel, sto)
 
 
 class Obligation:
@@ -69,19 +69,21 @@ def alloc_array(st, base, dt, shape, init=None):
         st.heap[cid] = (K, V)
         if init is not None:
             f = fl.F(init)
-            st.assume(z3.ForAll(idx, z3.Select(K, *idx) == f.k, patterns=[z3.Select(K, *idx)]))
-            st.assume(z3.ForAll(idx, z3.Select(V, *idx) == f.v, patterns=[z3.Select(V, *idx)]))
+            st.assume(z3.ForAll(idx, sel(K, idx) == f.k, patterns=[sel(K, idx)]))
+            st.assume(z3.ForAll(idx, sel(V, idx) == f.v, patterns=[sel(V, idx)]))
     else:
         A = fresh_array_term(base, nd, dtype_sort(dt))
         st.heap[cid] = A
         if init is not None:
             if dt.startswith("u"):
                 iv = z3.BitVecVal(init, int(dt[1:])) if isinstance(init, int) else init
+            elif dt == "r":
+                iv = fl.F(init).v
             elif dt == "b":
                 iv = z3.BoolVal(bool(init)) if isinstance(init, (bool, int)) else init
             else:
                 iv = z3.IntVal(init) if isinstance(init, int) else init
-            st.assume(z3.ForAll(idx, z3.Select(A, *idx) == iv, patterns=[z3.Select(A, *idx)]))
+            st.assume(z3.ForAll(idx, sel(A, idx) == iv, patterns=[sel(A, idx)]))
     return SArr(cid, dt, shape, name=base)
 
 
@@ -97,8 +99,10 @@ def array_read(st, arr, idx):
     h = st.heap[arr.cell]
     full = list(arr.fixed) + list(idx)
     if arr.dt == "f":
-        return SFloat(z3.Select(h[0], *full), z3.Select(h[1], *full))
-    return z3.Select(h, *full)
+        return SFloat(sel(h[0], full), sel(h[1], full))
+    if arr.dt == "r":  # array of finite reals (finiteness is a declared invariant of the array)
+        return SFloat(fl.FIN, sel(h, full), True)
+    return sel(h, full)
 
 
 def array_write(st, arr, idx, val):
@@ -106,15 +110,31 @@ def array_write(st, arr, idx, val):
     full = list(arr.fixed) + list(idx)
     if arr.dt == "f":
         f = fl.F(val) if not isinstance(val, SFloat) else val
-        st.heap[arr.cell] = (z3.Store(h[0], *(full + [f.k])), z3.Store(h[1], *(full + [f.v])))
+        st.heap[arr.cell] = (sto(h[0], full, f.k), sto(h[1], full, f.v))
     else:
-        st.heap[arr.cell] = z3.Store(h, *(full + [coerce_scalar(val, arr.dt)]))
+        st.heap[arr.cell] = sto(h, full, coerce_scalar(val, arr.dt))
+
+
+def is_float_like(v):
+    return isinstance(v, (SFloat, float))
+
+
+def to_int_like(v):
+    if isinstance(v, bool):
+        return int(v)
+    if z3.is_expr(v) and z3.is_bool(v):
+        return z3.If(v, z3.IntVal(1), z3.IntVal(0))
+    if z3.is_expr(v) and z3.is_bv(v):
+        return z3.BV2Int(v, False)
+    return v
 
 
 def coerce_scalar(val, dt):
     """coerce a value to the element sort of an array with dtype code dt"""
     if dt == "f":
         return fl.F(val)
+    if dt == "r":
+        return (val if isinstance(val, SFloat) else fl.F(val if is_float_like(val) else to_int_like(val))).v
     if dt == "i":
         if isinstance(val, bool):
             return z3.IntVal(int(val))
